@@ -19,7 +19,7 @@ from smt import Solver
 A_BASE, B_BASE, C_BASE, D_BASE, E_BASE, F_BASE = 0x10000000, 0x20000000, 0x30000000, 0x40000000, 0x50000000, 0x60000000
 STACK_TOP = 0x70000008
 STACK_LEN = 0x1000
-MAX_PATHS = 96
+MAX_PATHS = 600
 
 REGN = {n: i for i, n in enumerate(lifter.REG64)}
 
@@ -333,19 +333,29 @@ class PointModel:
                     continue
                 ob.append(rel(got, self.outs[i], self.minmax))
             fin = self.final_choice_words(m)
+            fin_s = m.mem.get(C_BASE, self.init_simplify)
+            fs = "((_ extract 7 0) %s)" % X.T(fin_s, 32)
+            reported = "(not (= %s #x00))" % fs
+            chob = []
             for j in range(4 * self.nwords):
                 if j < self.nch:
-                    ob.append("(= %s (bvor %s %s))" % (self.byte(fin, j), self.byte(self.init_choice_words, j), self.choices[j]))
+                    chob.append("(= %s %s)" % (self.byte(fin, j), self.choices[j]))
                 else:
-                    ob.append("(= %s %s)" % (self.byte(fin, j), self.byte(self.init_choice_words, j)))
+                    ob.append("(= %s #x00)" % self.byte(fin, j))
             simp = X.bor(*["(not (= %s #x03))" % c for c in self.choices])
-            fin_s = m.mem.get(C_BASE, self.init_simplify)
-            ob.append("(= ((_ extract 7 0) %s) (bvor ((_ extract 7 0) %s) (ite %s #x01 #x00)))" % (
-                X.T(fin_s, 32), X.T(self.init_simplify, 32), simp))
+            # the evaluator hands in a zeroed trace and flag; a trace is reported
+            # iff the flag ends up non-zero, and then every entry must be right
+            ob.append("(= %s (ite %s #x01 #x00))" % (fs, simp))
+            ob.append("(or (not %s) (and %s))" % (reported, " ".join(chob) if chob else "true"))
             ob.append("(= ((_ extract 31 8) %s) ((_ extract 31 8) %s))" % (X.T(fin_s, 32), X.T(self.init_simplify, 32)))
-            disj.append("(and %s (not (and %s)))" % (X.band(*p.conds), " ".join(ob)))
+            disj.append("(and %s (not (and %s)))" % (X.band(*(self.zero_pre() + p.conds)), " ".join(ob)))
         goal = "(or %s)" % " ".join(disj) if len(disj) > 1 else disj[0]
         return problems, goal
+
+    def zero_pre(self):
+        pre = ["(= %s #x00000000)" % w for w in self.init_choice_words if isinstance(w, str)]
+        pre.append("(= ((_ extract 7 0) %s) #x00)" % X.T(self.init_simplify, 32))
+        return pre
 
     def validation_goal(self, vec, real_out, real_trace):
         """The model run on concrete inputs (choices and the simplify byte
@@ -638,3 +648,409 @@ def jitgen_specials():
     import jitgen
 
     return jitgen.SPECIALS
+
+
+# ---------------------------------------------------------------------------
+# interval assembler: rdi = *const Interval, rsi = choices, rdx = simplify, rcx = *mut Interval
+# Specification side: SMT transcription of the Interval kernels of
+# fidget_core::types::interval (whose enclosure/choice soundness the Kani
+# harnesses decide on the real Rust code).  The JIT result must be a superset
+# of the kernel's result (or undecided), its choice equal or more conservative.
+
+ZERO, ONE, MONE, NANB = 0x00000000, 0x3F800000, 0xBF800000, 0x7FC00000
+
+
+def fnan(a):
+    return X.isnan(a)
+
+
+def flt(a, b):
+    return X.fcmp("lt", a, b)
+
+
+def fle(a, b):
+    return X.fcmp("leq", a, b)
+
+
+def feq(a, b):
+    return X.fcmp("eq", a, b)
+
+
+def rmin(a, b):
+    a, b = X.T(a, 32), X.T(b, 32)
+    return "(ite %s %s (ite %s %s (ite %s %s %s)))" % (fnan(a), b, fnan(b), a, flt(a, b), a, b)
+
+
+def rmax(a, b):
+    a, b = X.T(a, 32), X.T(b, 32)
+    return "(ite %s %s (ite %s %s (ite %s %s %s)))" % (fnan(a), b, fnan(b), a, flt(b, a), a, b)
+
+
+def fneg(a):
+    return "(bvxor %s #x80000000)" % X.T(a, 32)
+
+
+def ihasnan(I):
+    return X.bor(fnan(I[0]), fnan(I[1]))
+
+
+def icontains0(I):
+    return X.band(fle(I[0], ZERO), fle(ZERO, I[1]))
+
+
+def iite(c, A, B):
+    return (X.ite(c, X.T(A[0], 32), X.T(B[0], 32)), X.ite(c, X.T(A[1], 32), X.T(B[1], 32)))
+
+
+NANI = (NANB, NANB)
+
+
+def from_bounds(l, u):
+    return iite(X.bor(fnan(l), fnan(u)), NANI, (l, u))
+
+
+def fold4(vals, f):
+    acc = vals[0]
+    for v in vals[1:]:
+        acc = f(acc, v)
+    return acc
+
+
+def K_unary(enc, base, A):
+    l, u = X.T(A[0], 32), X.T(A[1], 32)
+    A = (l, u)
+    if base == "Neg":
+        return (fneg(u), fneg(l))
+    if base == "Abs":
+        return iite(flt(l, ZERO), iite(flt(X.bv(ZERO, 32), u), (ZERO, rmax(u, fneg(l))), (fneg(u), fneg(l))), A)
+    if base == "Square":
+        sq = lambda x: X.fop("mul", x, x)
+        absx = lambda x: "(bvand %s #x7fffffff)" % x
+        return iite(flt(u, ZERO), (sq(u), sq(l)), iite(flt(X.bv(ZERO, 32), l), (sq(l), sq(u)),
+                                                     iite(ihasnan(A), NANI, (ZERO, sq(rmax(absx(l), absx(u)))))))
+    if base == "Sqrt":
+        return iite(flt(l, ZERO), NANI, (X.fsqrt(l), X.fsqrt(u)))
+    if base == "Recip":
+        return iite(X.bor(flt(X.bv(ZERO, 32), l), flt(u, ZERO)), (X.fop("div", ONE, u), X.fop("div", ONE, l)), NANI)
+    if base in ("Floor", "Ceil", "Round"):
+        rm = {"Floor": "RTN", "Ceil": "RTP", "Round": "RNA"}[base]
+        f = lambda x: X.fp2bv("(fp.roundToIntegral %s %s)" % (rm, X.fp(x)))
+        return (f(l), f(u))
+    if base == "Not":
+        return iite(X.band(X.bnot(icontains0(A)), X.bnot(ihasnan(A))), (ZERO, ZERO),
+                    iite(X.band(feq(l, ZERO), feq(u, ZERO)), (ONE, ONE), (ZERO, ONE)))
+    if base == "Rand":
+        amb = X.bor(ihasnan(A), "(not (= %s %s))" % (l, u), feq(l, ZERO))
+        bits = "(bvor (bvlshr %s #x00000009) #x3f800000)" % hash32(l)
+        r = X.fop("add", bits, MONE)
+        return iite(amb, (ZERO, ONE), (r, r))
+    nm = base.lower()
+    return ("(%s %s %s)" % (enc.uf("il_" + nm, 2), l, u), "(%s %s %s)" % (enc.uf("iu_" + nm, 2), l, u))
+
+
+def K_binary(enc, base, A, B, imm_form=None):
+    """Returns (interval, choice term or None)."""
+    A = (X.T(A[0], 32), X.T(A[1], 32))
+    B = (X.T(B[0], 32), X.T(B[1], 32))
+    nan = X.bor(ihasnan(A), ihasnan(B))
+    if base == "Add":
+        return from_bounds(X.fop("add", A[0], B[0]), X.fop("add", A[1], B[1])), None
+    if base == "Sub":
+        return from_bounds(X.fop("sub", A[0], B[1]), X.fop("sub", A[1], B[0])), None
+    if base == "Mul":
+        if imm_form == "reg_imm":
+            k = B[0]
+            neg = from_bounds(X.fop("mul", A[1], k), X.fop("mul", A[0], k))
+            pos = from_bounds(X.fop("mul", A[0], k), X.fop("mul", A[1], k))
+            return iite(X.bor(ihasnan(A), fnan(k)), NANI, iite(flt(k, ZERO), neg, pos)), None
+        ps = [X.fop("mul", a, b) for a in A for b in B]
+        return iite(nan, NANI, (fold4(ps, rmin), fold4(ps, rmax))), None
+    if base == "Div":
+        qs = [X.fop("div", a, b) for a in A for b in B]
+        ok = X.bor(flt(X.bv(ZERO, 32), B[0]), flt(B[1], ZERO))
+        return iite(ihasnan(A), NANI, iite(ok, (fold4(qs, rmin), fold4(qs, rmax)), NANI)), None
+    if base == "Min":
+        ch = "(ite %s #x03 (ite %s #x01 (ite %s #x02 #x03)))" % (nan, flt(A[1], B[0]), flt(B[1], A[0]))
+        return iite(nan, NANI, (rmin(A[0], B[0]), rmin(A[1], B[1]))), ch
+    if base == "Max":
+        ch = "(ite %s #x03 (ite %s #x01 (ite %s #x02 #x03)))" % (nan, flt(B[1], A[0]), flt(A[1], B[0]))
+        return iite(nan, NANI, (rmax(A[0], B[0]), rmax(A[1], B[1]))), ch
+    if base == "And":
+        z = X.band(feq(A[0], ZERO), feq(A[1], ZERO))
+        nc = X.bnot(icontains0(A))
+        ch = "(ite %s #x03 (ite %s #x01 (ite %s #x02 #x03)))" % (nan, z, nc)
+        return iite(nan, NANI, iite(z, (ZERO, ZERO), iite(nc, B, (rmin(B[0], ZERO), rmax(B[1], ZERO))))), ch
+    if base == "Or":
+        z = X.band(feq(A[0], ZERO), feq(A[1], ZERO))
+        nc = X.bnot(icontains0(A))
+        ch = "(ite %s #x03 (ite %s #x01 (ite %s #x02 #x03)))" % (nan, nc, z)
+        return iite(nan, NANI, iite(nc, A, iite(z, B, (rmin(A[0], B[0]), rmax(A[1], B[1]))))), ch
+    if base == "Compare":
+        unit = X.band(feq(A[0], A[1]), feq(B[0], B[1]), feq(A[0], B[0]))
+        return iite(nan, NANI, iite(flt(A[1], B[0]), (MONE, MONE), iite(flt(B[1], A[0]), (ONE, ONE),
+                                                                       iite(unit, (ZERO, ZERO), (MONE, ONE))))), None
+    if base == "Mix":
+        amb = X.bor(nan, "(not (= %s %s))" % A, "(not (= %s %s))" % B, feq(A[0], ZERO), feq(B[0], ZERO))
+        h = hash32("(bvadd %s %s)" % (A[0], hash32(B[0])))
+        return iite(amb, NANI, (h, h)), None
+    nm = {"Atan": "atan2", "Mod": "rem_euclid"}[base]
+    args = " ".join(A + B)
+    return ("(%s %s)" % (enc.uf("il_" + nm, 4), args), "(%s %s)" % (enc.uf("iu_" + nm, 4), args)), None
+
+
+def spec_interval_program(enc, ops, inputs):
+    sem = T.semtable()
+    cur = {}
+    outs = {}
+    choices = []
+    for op in ops:
+        t = op.split()
+        name = t[0]
+        c = T.op_class(name)
+        if c == "Input":
+            cur[int(t[1])] = inputs[int(t[2])]
+        elif c == "Output":
+            outs[int(t[2])] = cur[int(t[1])]
+        elif c == "CopyImm":
+            k = int(t[2], 16)
+            cur[int(t[1])] = (k, k)
+        elif c in ("CopyReg", "Load"):
+            cur[int(t[1])] = cur[int(t[2])]
+        elif c == "Store":
+            cur[int(t[2])] = cur[int(t[1])]
+        else:
+            _, base, lhs = sem[name]
+            if c == "un":
+                v = K_unary(enc, base, cur[int(t[2])])
+            else:
+                form = None
+                if c == "imm":
+                    k = int(t[3], 16)
+                    a, b = cur[int(t[2])], (k, k)
+                    form = "reg_imm"
+                    if lhs:
+                        a, b = b, a
+                        form = "imm_reg"
+                else:
+                    a, b = cur[int(t[2])], cur[int(t[3])]
+                v, ch = K_binary(enc, base, a, b, form if base == "Mul" else None)
+                if ch is not None:
+                    nm = enc.fresh("ch")
+                    enc.lines.append("(define-fun %s () (_ BitVec 8) %s)" % (nm, ch))
+                    choices.append(nm)
+            cur[int(t[1])] = (enc.define("el", X.T(v[0], 32)), enc.define("eu", X.T(v[1], 32)))
+    return outs, choices
+
+
+def make_interval_call_hook(enc, names, abi):
+    def hook(m, target):
+        t = m.g[target[1]]
+        if not isinstance(t, int) or t not in names:
+            raise X.Unsupported("call to an unidentified target")
+        nm = names[t]
+        if m.g[4] % 16:
+            abi.append("stack not 16-byte aligned at call to %s" % nm)
+        a = (X.T(m.y[0][0], 32), X.T(m.y[0][1], 32))
+        b = (X.T(m.y[1][0], 32), X.T(m.y[1][1], 32))
+        if nm in ("atan2", "rem_euclid"):
+            args = " ".join(a + b)
+            r = ("(%s %s)" % (enc.uf("il_" + nm, 4), args), "(%s %s)" % (enc.uf("iu_" + nm, 4), args))
+        else:
+            r = ("(%s %s %s)" % (enc.uf("il_" + nm, 2), a[0], a[1]), "(%s %s %s)" % (enc.uf("iu_" + nm, 2), a[0], a[1]))
+        m.calls += 1
+        for g in CALLER_SAVED:
+            m.g[g] = m.junk(64, "clob_g")
+        for reg in range(16):
+            for l in range(8):
+                m.y[reg][l] = m.junk(32, "clob_y")
+        for f in m.fl:
+            m.fl[f] = m.symb("clob_f%d_%s" % (m.calls, f))
+        m.y[0][0], m.y[0][1] = enc.define("calll", r[0]), enc.define("callu", r[1])
+    return hook
+
+
+def superset(J, K):
+    """JIT interval J is undecided or a superset of the kernel's K"""
+    jl, ju, kl, ku = (X.T(v, 32) for v in (J[0], J[1], K[0], K[1]))
+    return "(or %s (and (not %s) %s %s))" % (ihasnan((jl, ju)), ihasnan((kl, ku)), fle(jl, kl), fle(ku, ju))
+
+
+class IntervalModel(PointModel):
+    def __init__(self, sc):
+        self.sc = sc
+        self.enc = Enc2(fp=True, mode="base")
+        enc = self.enc
+        self.nch = sum(1 for op in sc.ops if op.split()[0] in T.CHOICE_KIND)
+        self.nwords = (self.nch + 4 + 3) // 4
+        regions = [X.Region("vars", A_BASE, 8 * max(sc.nvars, 1), writable=False),
+                   X.Region("choices", B_BASE, 4 * self.nwords), X.Region("simplify", C_BASE, 4),
+                   X.Region("out", D_BASE, 8 * sc.nout)]
+        m0 = X.Machine(enc.lines, regions, STACK_TOP, STACK_LEN)
+        m0.g[7], m0.g[6], m0.g[2], m0.g[1], m0.g[4] = A_BASE, B_BASE, C_BASE, D_BASE, STACK_TOP
+        self.init_callee = {r: m0.g[r] for r in (3, 5, 12, 13, 14, 15)}
+        names = {}
+        for c in sc.calls:
+            off, addr, nm = c.split(":")
+            if nm.startswith("un"):
+                raise X.Unsupported("callback at %s could not be identified" % addr)
+            names[int(addr, 16)] = nm
+        self.abi = []
+        self.inputs = [(m0.load32(A_BASE + 8 * i), m0.load32(A_BASE + 8 * i + 4)) for i in range(sc.nvars)]
+        self.init_choice_words = [m0.load32(B_BASE + 4 * i) for i in range(self.nwords)]
+        self.init_simplify = m0.load32(C_BASE)
+        self.paths = sym_exec(sc.code, m0, make_interval_call_hook(enc, names, self.abi))
+        self.outs, self.choices = spec_interval_program(enc, sc.ops, self.inputs)
+        self.has_calls = any(p.m.calls for p in self.paths)
+
+    def property_goal(self):
+        sc = self.sc
+        problems = list(self.abi)
+        disj = []
+        # callers pass valid intervals (Interval::new): lower <= upper or both NaN.
+        # (Intermediates with a single NaN bound, which only JIT arithmetic can
+        # produce, are covered by the two-op scenarios, where the solver sees
+        # exactly the reachable ones.)
+        pre = [X.bor(fle(l, u), X.band(fnan(l), fnan(u))) for l, u in self.inputs]
+        for p in self.paths:
+            m = p.m
+            ob = []
+            if m.oob:
+                problems.append("out-of-bounds access: %s" % [(k, hex(a)) for k, a in m.oob[:3]])
+            if m.g[4] != STACK_TOP + 8:
+                problems.append("rsp not restored: %r" % (m.g[4],))
+            for r, v in self.init_callee.items():
+                if m.g[r] != v:
+                    ob.append("(= %s %s)" % (X.T(m.g[r], 64), X.T(v, 64)))
+            if any(a >= STACK_TOP for a in m.writes):
+                problems.append("wrote into the caller's frame")
+            for i in range(sc.nout):
+                a = D_BASE + 8 * i
+                if a not in m.writes or a + 4 not in m.writes:
+                    problems.append("output %d never written" % i)
+                    continue
+                ob.append(superset((m.mem[a], m.mem[a + 4]), self.outs[i]))
+            fin = self.final_choice_words(m)
+            fin_s = m.mem.get(C_BASE, self.init_simplify)
+            fs = "((_ extract 7 0) %s)" % X.T(fin_s, 32)
+            reported = "(not (= %s #x00))" % fs
+            some_decided, chob = [], []
+            for j in range(4 * self.nwords):
+                if j < self.nch:
+                    want = self.choices[j]
+                    got = self.byte(fin, j)
+                    chob.append("(or (= %s %s) (= %s #x03))" % (got, want, got))
+                    some_decided.append("(not (= %s #x03))" % want)
+                else:
+                    ob.append("(= %s #x00)" % self.byte(fin, j))
+            # flag is 0 or 1, and only set if some clause is decided by the kernel
+            ob.append("(or (= %s #x00) (and (= %s #x01) %s))" % (fs, fs, X.bor(*some_decided)))
+            ob.append("(or (not %s) (and %s))" % (reported, " ".join(chob) if chob else "true"))
+            ob.append("(= ((_ extract 31 8) %s) ((_ extract 31 8) %s))" % (X.T(fin_s, 32), X.T(self.init_simplify, 32)))
+            disj.append("(and %s (not (and %s)))" % (X.band(*(pre + self.zero_pre() + p.conds)), " ".join(ob)))
+        goal = "(or %s)" % " ".join(disj) if len(disj) > 1 else disj[0]
+        return problems, goal
+
+    def validation_goal(self, vec, real_out, real_trace):
+        pre = []
+        for (l, u), k in zip(self.inputs, range(len(self.inputs))):
+            pre.append("(= %s %s)" % (l, X.bv(vec[2 * k], 32)))
+            pre.append("(= %s %s)" % (u, X.bv(vec[2 * k + 1], 32)))
+        pre += ["(= %s #x00000000)" % w for w in self.init_choice_words if isinstance(w, str)]
+        pre.append("(= ((_ extract 7 0) %s) #x00)" % X.T(self.init_simplify, 32))
+        disj = []
+        for p in self.paths:
+            m = p.m
+            ok = []
+            for i, v in enumerate(real_out):
+                got = X.T(m.mem.get(D_BASE + 4 * i, 0), 32)
+                if (v & 0x7F800000) == 0x7F800000 and (v & 0x7FFFFF):
+                    ok.append(X.isnan(got))
+                else:
+                    ok.append("(= %s %s)" % (got, X.bv(v, 32)))
+            fin = self.final_choice_words(m)
+            fin_s = m.mem.get(C_BASE, self.init_simplify)
+            if real_trace == "none":
+                ok.append("(= ((_ extract 7 0) %s) #x00)" % X.T(fin_s, 32))
+            else:
+                ok.append("(not (= ((_ extract 7 0) %s) #x00))" % X.T(fin_s, 32))
+                for j, ch in enumerate(real_trace):
+                    ok.append("(= %s %s)" % (self.byte(fin, j), X.bv(int(ch), 8)))
+            disj.append((X.band(*p.conds), "(and %s)" % " ".join(ok)))
+        if self.has_calls:
+            return "(and %s (or %s))" % (" ".join(pre), " ".join("(and %s %s)" % (c, k) for c, k in disj)), "sat"
+        return "(and %s (or %s))" % (" ".join(pre), " ".join("(and %s (not %s))" % (c, k) for c, k in disj)), "unsat"
+
+
+def check_interval(sc, solver, validate_vectors=None):
+    try:
+        pm = IntervalModel(sc)
+    except X.Unsupported as e:
+        return {"status": "error", "error": str(e)}
+    problems, goal = pm.property_goal()
+    out = {"paths": len(pm.paths), "validated": 0, "validation_bad": []}
+    for vec, real_out, real_trace in validate_vectors or []:
+        vgoal, want = pm.validation_goal(vec, real_out, real_trace)
+        res, _ = T.query(solver, pm.enc, vgoal)
+        out["validated"] += 1
+        if res == "unknown":
+            out["validation_unknown"] = out.get("validation_unknown", 0) + 1
+        elif res != want:
+            out["validation_bad"].append("inputs %s: real JIT gave %s / %s, the model says that is %s" % (
+                ["0x%08x" % v for v in vec], ["0x%08x" % v for v in real_out], real_trace,
+                "impossible" if want == "sat" else "not implied (%s)" % res))
+    if problems:
+        out.update(status="fail", problems=problems)
+        return out
+    xs = [x for I in pm.inputs for x in I if isinstance(x, str)]
+    res, model = T.query(solver, pm.enc, goal, xs, fallback_prelude=T.PRELUDE_FP)
+    out.update(status=res, inputs=xs)
+    if res == "sat":
+        out["model"] = model
+    return out
+
+
+def work_interval(chunk):
+    global _solver2
+    if _solver2 is None:
+        _solver2 = Solver("z3", timeout_ms=20000)
+        _solver2.send(T.PRELUDE_FP)
+    t0 = _solver2.time_s
+    out = []
+    for sc, vv in chunk:
+        r = check_interval(sc, _solver2, vv)
+        r["sid"] = sc.sid
+        out.append(r)
+    return out, _solver2.time_s - t0
+
+
+def real_runs_interval(scs, count):
+    out = {}
+    reqs = []
+    sp = [0xC0000000, 0xBF800000, 0x80000000, 0x00000000, 0x3F000000, 0x3F800000, 0x40000000, 0x40490FDB, 0x7F800000]
+    for s in scs:
+        if s.nvars == 0:
+            continue
+        rnd = random.Random(seed() + s.sid)
+        vecs = []
+        for _ in range(count):
+            v = []
+            for _ in range(s.nvars):
+                if rnd.random() < 0.1:
+                    v += [0x7FC00000, 0x7FC00000]
+                    continue
+                a, b = rnd.choice(sp), rnd.choice(sp)
+                fa, fb = struct.unpack("<f", struct.pack("<I", a))[0], struct.unpack("<f", struct.pack("<I", b))[0]
+                if fa > fb:
+                    a, b = b, a
+                v += [a, b]
+            vecs.append(v)
+        reqs.append(s.req(vecs))
+    p = subprocess.run([T.TVDUMP, "jitrun", "interval"], input="\n".join(reqs) + "\n", capture_output=True, text=True)
+    for line in p.stdout.splitlines():
+        try:
+            r = json.loads(line)
+        except Exception:
+            continue
+        out.setdefault(r["id"], []).append(([int(w, 16) for w in r["vars"].split()], [int(w, 16) for w in r["out"].split()],
+                                             r.get("trace"), [int(w, 16) for w in r.get("vm_out", "").split()], r.get("vm_trace")))
+    return out
